@@ -24,7 +24,9 @@ NoPend == [set |-> FALSE, id |-> "", ident |-> "", vals |-> <<>>, tidx |-> -1]
 InitState(cur, fsat, fsskip) ==
   [ps |-> [k |-> "done", id |-> ""], pos |-> 1, valid |-> FALSE, trailing |-> FALSE,
    m |-> <<>>, pend |-> NoPend, cur |-> cur, fsat |-> fsat, fsskip |-> fsskip,
-   sub |-> [set |-> FALSE, name |-> <<>>, m |-> <<>>, ext |-> FALSE]]
+   \* history variable (not read by the parser): occurrences reacted to from the command line and
+   \* the argv position of the escape, in order - the attribution ledger of DESIGN §2
+   led |-> <<>>]
 
 \* ---- matcher (ArgMatcher / FlatMap / MatchedArg) --------------------------
 MIdx(m, id) == FirstIdx(m, LAMBDA e : e.id = id)
@@ -115,7 +117,7 @@ VerifyNumArgs(c, a, vals) ==       \* "" or error kind
 RECURSIVE SplitVals(_, _, _, _, _)
 SplitVals(vals, i, delim, dontDelimit, tidx) ==
   IF i > Len(vals) THEN <<>>
-  ELSE (IF ~Contains(vals[i], <<delim>>) \/ (dontDelimit /\ tidx = i - 1)
+  ELSE (IF ~Contains(vals[i], <<delim>>) \/ (dontDelimit /\ tidx # -1 /\ tidx <= i - 1)
         THEN <<vals[i]>> ELSE Split(vals[i], <<delim>>))
        \o SplitVals(vals, i + 1, delim, dontDelimit, tidx)
 
@@ -132,26 +134,27 @@ ReactCore(c, st, a, ident, src, vals0, tidx0) ==
       bump == src = SrcCli /\ (ident = "short" \/ ident = "long")
       selfOverride == Set(c, "args_override_self") \/ a.id \in SeqToSet(a.overrides)
       had == MHas(st.m, a.id)
+      stL == IF src = SrcCli THEN [st EXCEPT !.led = Append(@, [k |-> "occ", id |-> a.id, ident |-> ident, vals |-> vals, at |-> 0])] ELSE st
   IN CASE a.action = "Set" ->
-            LET st1 == [st EXCEPT !.cur = IF bump THEN @ + 1 ELSE @, !.m = MRemove(@, a.id)] IN
+            LET st1 == [stL EXCEPT !.cur = IF bump THEN @ + 1 ELSE @, !.m = MRemove(@, a.id)] IN
             IF had /\ ~selfOverride THEN R("err", st1, "ArgumentConflict", a.id)
             ELSE PushValues(a, [st1 EXCEPT !.m = StartCustomArg(c, @, a, src)], vals, 1)
        [] a.action = "Append" ->
-            LET st1 == [st EXCEPT !.cur = IF bump THEN @ + 1 ELSE @] IN
+            LET st1 == [stL EXCEPT !.cur = IF bump THEN @ + 1 ELSE @] IN
             PushValues(a, [st1 EXCEPT !.m = StartCustomArg(c, @, a, src)], vals, 1)
        [] a.action \in {"SetTrue", "SetFalse"} ->
             LET v == IF vals = <<>> THEN (IF a.action = "SetTrue" THEN <<BoolStr(TRUE)>> ELSE <<BoolStr(FALSE)>>) ELSE vals
-                st1 == [st EXCEPT !.m = MRemove(@, a.id)] IN
+                st1 == [stL EXCEPT !.m = MRemove(@, a.id)] IN
             IF had /\ ~selfOverride THEN R("err", st1, "ArgumentConflict", a.id)
             ELSE PushValues(a, [st1 EXCEPT !.m = StartCustomArg(c, @, a, src)], v, 1)
        [] a.action = "Count" ->
             LET existing == IF had /\ RawFlat(MGet(st.m, a.id)) # <<>> THEN DecVal(RawFlat(MGet(st.m, a.id))[1]) ELSE 0
                 next == IF existing >= 255 THEN 255 ELSE existing + 1
                 v == IF vals = <<>> THEN <<DecStr(next)>> ELSE vals
-                st1 == [st EXCEPT !.m = MRemove(@, a.id)] IN
+                st1 == [stL EXCEPT !.m = MRemove(@, a.id)] IN
             PushValues(a, [st1 EXCEPT !.m = StartCustomArg(c, @, a, src)], v, 1)
-       [] a.action = "Help" -> R("err", st, "DisplayHelp", IF ident = "short" THEN "short" ELSE "long")
-       [] a.action = "Version" -> R("err", st, "DisplayVersion", "")
+       [] a.action = "Help" -> R("err", stL, "DisplayHelp", IF ident = "short" THEN "short" ELSE "long")
+       [] a.action = "Version" -> R("err", stL, "DisplayVersion", "")
 
 \* Parser::resolve_pending: take the pending argument and react to it
 ResolvePending(c, st) ==
@@ -283,7 +286,8 @@ ParseShortArg(c, st, rem) ==
      ELSE LET adv == ShAdvanceBy(sf0, IF st.fsskip > 3 THEN 3 ELSE st.fsskip) IN
           \* debug_assert_eq!(res, Ok(())): tracking of flag_subcmd_skip
           IF adv[2].k # "ok" \/ st.fsskip > 3 THEN R("panic", st, "parser.rs:919 debug_assert advance_by(flag_subcmd_skip)", "")
-          ELSE WalkShort(c, [st EXCEPT !.fsskip = 0], adv[1], "noarg")
+          \* a cluster parsed from its start forgets a flag-subcommand position remembered earlier
+          ELSE WalkShort(c, [st EXCEPT !.fsskip = 0, !.fsat = IF st.fsskip = 0 THEN -1 ELSE @], adv[1], "noarg")
 
 \* ---- Parser::match_arg_error ----------------------------------------------------------
 MatchArgErrorKind(c, st, tok) ==
@@ -404,7 +408,10 @@ RECURSIVE Loop(_, _, _, _)
 Loop(c, st, argv, i) ==
   IF i > Len(argv) THEN R("end", st, "", "")
   ELSE LET r == Step(c, st, argv[i], i < Len(argv), IF i < Len(argv) THEN argv[i + 1] ELSE <<>>) IN
-       IF r.t = "cont" THEN Loop(c, r.st, argv, i + 1)
+       IF r.t = "cont"
+       THEN LET st2 == IF ~st.trailing /\ r.st.trailing /\ PA_IsEscape(argv[i])
+                       THEN [r.st EXCEPT !.led = Append(@, [k |-> "escape", id |-> "", ident |-> "", vals |-> <<>>, at |-> i])] ELSE r.st
+            IN Loop(c, st2, argv, i + 1)
        ELSE [r EXCEPT !.x = [x |-> r.x, i |-> i]]
 
 \* ---- Parser::add_env / add_defaults -----------------------------------------------------
@@ -515,8 +522,9 @@ Validate(c, m, hasSub) ==     \* "" or the error kind, in the order of Validator
 \* ---- Parser::get_matches_with / parse / parse_subcommand ---------------------------------
 \* level result: [err, panic, kind, site, m, sub]; sub = [set, name, ext, lv]
 NoSub == [set |-> FALSE, name |-> <<>>, ext |-> FALSE, lv |-> <<>>]
-LevelRes(err, panic, kind, m, sub) == [err |-> err, panic |-> panic, kind |-> kind, m |-> m, sub |-> sub]
+LevelRes(err, panic, kind, m, sub) == [err |-> err, panic |-> panic, kind |-> kind, m |-> m, sub |-> sub, led |-> <<>>]
 IgnoreBad(r) == r.st     \* `let _ = ...`
+LevelResL(err, panic, kind, st, sub) == [err |-> err, panic |-> panic, kind |-> kind, m |-> st.m, sub |-> sub, led |-> st.led]
 
 RECURSIVE RunLevel(_, _, _, _, _, _)
 RunLevel(c, argv, start, cur, fsat, fsskip) ==
@@ -540,9 +548,8 @@ RunLevel(c, argv, start, cur, fsat, fsskip) ==
                    skip == IF keep THEN st.cur - st.fsat + 1 ELSE st.fsskip
                    si == FindSubcommand(c, lr.x.x)
                IN IF Set(c, "args_conflicts_with_subcommands") /\ st.valid
-                  THEN (IF \E k \in 1..Len(st.m) : ~HasArg(c, st.m[k].id)
-                        THEN [ok |-> FALSE, panic |-> TRUE, st |-> st, kind |-> "parser.rs:486 find(id).unwrap() on a group id", sub |-> NoSub]
-                        ELSE [ok |-> FALSE, panic |-> FALSE, st |-> st, kind |-> "ArgumentConflict", sub |-> NoSub])
+                  THEN \* subcommand_conflict: ids that are not arguments (group entries) are skipped (filter_map)
+                       [ok |-> FALSE, panic |-> FALSE, st |-> st, kind |-> "ArgumentConflict", sub |-> NoSub]
                   ELSE IF si = 0 \/ SubView(c)[si].auto
                   THEN [ok |-> FALSE, panic |-> TRUE, st |-> st, kind |-> "parser.rs:494 find_subcommand.expect", sub |-> NoSub]
                   ELSE LET sv == SubView(c)[si]
@@ -551,23 +558,24 @@ RunLevel(c, argv, start, cur, fsat, fsskip) ==
                                  ELSE RunLevel(child, argv, lr.x.i + 1, 0, -1, 0)
                        IN IF cr.panic THEN [ok |-> FALSE, panic |-> TRUE, st |-> st, kind |-> cr.kind, sub |-> NoSub]
                           ELSE IF cr.err /\ ~Set(c, "ignore_errors")
-                          THEN [ok |-> FALSE, panic |-> FALSE, st |-> st, kind |-> cr.kind, sub |-> NoSub]
+                          THEN [ok |-> FALSE, panic |-> FALSE, st |-> st, kind |-> cr.kind,
+                                sub |-> [set |-> TRUE, name |-> sv.name, ext |-> FALSE, lv |-> cr]]   \* kept for the justification predicates only
                           ELSE [ok |-> TRUE, panic |-> FALSE, st |-> st, kind |-> "",
                                 sub |-> [set |-> TRUE, name |-> sv.name, ext |-> FALSE, lv |-> [cr EXCEPT !.err = FALSE, !.kind = ""]]]
-  IN IF parsed.panic THEN LevelRes(TRUE, TRUE, parsed.kind, parsed.st.m, NoSub)
+  IN IF parsed.panic THEN LevelResL(TRUE, TRUE, parsed.kind, parsed.st, NoSub)
      ELSE IF ~parsed.ok
      THEN (IF Set(c, "ignore_errors")
            THEN LET e == IgnoreBad(AddEnvFrom(c, parsed.st, 1)) d == IgnoreBad(AddDefaultsFrom(c, e, 1))
-                IN LevelRes(TRUE, FALSE, parsed.kind, d.m, NoSub)
-           ELSE LevelRes(TRUE, FALSE, parsed.kind, parsed.st.m, NoSub))
+                IN LevelResL(TRUE, FALSE, parsed.kind, d, parsed.sub)
+           ELSE LevelResL(TRUE, FALSE, parsed.kind, parsed.st, parsed.sub))
      ELSE LET r1 == ResolvePending(c, parsed.st) IN
-          IF IsBad(r1) THEN LevelRes(TRUE, r1.t = "panic", r1.kind, r1.st.m, parsed.sub)
+          IF IsBad(r1) THEN LevelResL(TRUE, r1.t = "panic", r1.kind, r1.st, parsed.sub)
           ELSE LET r2 == AddEnvFrom(c, r1.st, 1) IN
-          IF IsBad(r2) THEN LevelRes(TRUE, r2.t = "panic", r2.kind, r2.st.m, parsed.sub)
+          IF IsBad(r2) THEN LevelResL(TRUE, r2.t = "panic", r2.kind, r2.st, parsed.sub)
           ELSE LET r3 == AddDefaultsFrom(c, r2.st, 1) IN
-          IF IsBad(r3) THEN LevelRes(TRUE, r3.t = "panic", r3.kind, r3.st.m, parsed.sub)
+          IF IsBad(r3) THEN LevelResL(TRUE, r3.t = "panic", r3.kind, r3.st, parsed.sub)
           ELSE LET v == Validate(c, r3.st.m, parsed.sub.set) IN
-               LevelRes(v # "", FALSE, v, r3.st.m, parsed.sub)
+               LevelResL(v # "", FALSE, v, r3.st, parsed.sub)
 
 \* ---- Command::_do_parse: globals --------------------------------------------------------
 RECURSIVE UsedGlobals(_, _)
@@ -614,9 +622,10 @@ IsStdoutKind(k) == k \in {"DisplayHelp", "DisplayVersion"}
 ErrObs(kind) == [outcome |-> "Err", kind |-> kind, stderr |-> ~IsStdoutKind(kind), exit |-> IF IsStdoutKind(kind) THEN 0 ELSE 2, chain |-> <<>>]
 
 \* try_get_matches_from (bin name stripped by the caller: argv excludes argv[0]) + _do_parse
+RunTop(def, argv) == RunLevel(Build(def, NoInherit), argv, 1, 0, -1, 0)
 Run(def, argv) ==
   LET c == Build(def, NoInherit)
-      top == RunLevel(c, argv, 1, 0, -1, 0)
+      top == RunTop(def, argv)
   IN IF top.panic THEN [outcome |-> "Panic", kind |-> "", stderr |-> FALSE, exit |-> 0, chain |-> <<>>, site |-> top.kind]
      ELSE IF top.err /\ ~(Set(c, "ignore_errors") /\ ~IsStdoutKind(top.kind)) THEN ErrObs(top.kind) @@ [site |-> ""]
      ELSE LET g == FillGlobals(top, UsedGlobals(c, top), <<>>)[1]
